@@ -44,12 +44,49 @@ def run_targets(binary, targets, seed, count, repo="/repo"):
                 g = os.path.join(repo, "grammar.y")
                 cmd = [binary, t, str(seed), str(min(count, PACKRAT_COUNT)), g if os.path.exists(g) else "/repo/grammar.y"]
             r = subprocess.run(cmd, capture_output=True, text=True, timeout=600)
+            if r.returncode < 0 or r.returncode in (134, 139):
+                # the REAL code crashed the process (stack overflow / abort cannot be caught in-process): run again with
+                # tracing to learn on which input; the reference terminated on it (cases are generated only then)
+                r2 = subprocess.run(cmd, capture_output=True, text=True, timeout=600, env=dict(os.environ, GRAM_WITNESS_TRACE="1"))
+                last = [l[len("TRACE "):] for l in r2.stderr.split("\n") if l.startswith("TRACE ")]
+                if last and (r2.returncode < 0 or r2.returncode in (134, 139)):
+                    return {"target": t, "found": True, "input": last[-1], "real": f"the real code crashed the process (exit status {r2.returncode}: stack overflow or abort)",
+                            "reference": "the reference terminates on this input"}
+                continue
             out = json.loads(r.stdout.strip().split("\n")[-1])
         except Exception:
             continue
         if out.get("found"):
             return out
     return None
+
+
+def bounded_clauses(prop, repo, verif, seed=1, count=150000):
+    """C06 only: the clauses of the property that no contract reaches -- completeness of the conversion check (a term is
+    judged equal to every term it reduces to / to every term with the same normal form) and termination on small
+    inputs -- get a BOUNDED check on every run: the differential targets of the three functions on `count` random
+    cases each.  -> (finding or None, summary dict).  A finding is a concrete input replayed on the real code."""
+    if prop != "C06":
+        return None, None
+    scratch = tempfile.mkdtemp(prefix="gramwit.", dir="/var/tmp")
+    try:
+        binary = build(repo, verif, scratch)
+        targets = ["unify", "normalize_weak_head", "syntactically_equal"]
+        out = run_targets(binary, targets, seed, count, repo)
+        summary = {"targets": targets, "cases_per_target": count, "seed": seed,
+                   "bound": "terms of depth <= 3 over every term former, contexts of 8 entries (plain or with let-bound entries), reference normaliser with fuel 400/600; cases on which the reference runs out of fuel are skipped",
+                   "what": "unify: true only if the erased normal forms agree (also proved), true if they agree (completeness: bounded evidence only), context restored; normalize_weak_head / syntactically_equal: equal to the reference; no crash of the real code"}
+        if not out:
+            return None, summary
+        return {
+            "summary": f"{out['input']}  ->  real code: {out['real']}   reference semantics: {out['reference']}",
+            "target": out["target"], "seed": seed, "count": count,
+            "input": out["input"], "real": out["real"], "reference": out["reference"],
+            "stand_in": True,
+            "method": "BOUNDED check of the clauses of C06 that no contract reaches (completeness of the conversion check, termination on small inputs): random differential test of the real functions against witness/src/reference.rs",
+        }, summary
+    finally:
+        shutil.rmtree(scratch, ignore_errors=True)
 
 
 def search(prop, failed, repo, verif, seed=1, count=300000):
